@@ -83,6 +83,9 @@ func genAll(w *World, names []string) []*FuncReport {
 			defer func() { <-sem }()
 			defer func() {
 				if r := recover(); r != nil {
+					if os.Getenv("GOVC_DEBUG") != "" {
+						panic(r)
+					}
 					reps[i] = &FuncReport{Name: n, Err: fmt.Errorf("%s: internal error: %v", n, r)}
 				}
 			}()
